@@ -321,7 +321,6 @@ Theorem C02_engine_delimited_parameters :
          [prim_elem (PDef false)]
          (St (subst_body args b ++ rest) [] ((nm, MDef (render_pattern p) (render_body b)) :: base_frame)).
 Proof. exact engine_delimited_parameters. Qed.
-Print Assumptions C02_engine_delimited_parameters.
 
 (* non-vacuity:  \def\a!#1.#2#3;:{[#3#1]}\a!x.{y}z;:w   ->   [zx]w     (prefix "!", #1 delimited by ".", #2 undelimited, #3 by ";:") *)
 Example C02_engine_delimited_example :
@@ -333,4 +332,43 @@ Example C02_engine_delimited_example :
   (exists st T, run 50 (init (esc s_def :: Tok CC_ESCAPE [97] :: render_pattern p ++ bg :: render_body b ++ eg ::
                                Tok CC_ESCAPE [97] :: render_call_bg p args ++ [o 119])) [] = Done st T /\
                 text_of T = [o 91; o 122; o 120; o 93; o 119]).
+Proof. vm_compute. repeat split; eexists; try eexists; repeat split. Qed.
+
+(* ---- delimited parameters inside run . print = den ----
+   The printer takes a delimiter assignment (type class MacroPrint.Delims; NoDelims, the instance of all statements above, has none):
+   dl np i = the delimiter tokens written after parameter i of a \def macro with np parameters (punctuation characters ! , . : ;
+   [] = undelimited, argument in braces).  \def\zq..#1<dl np 1>..#np<dl np np>{body}; a call with np arguments writes argument i
+   in braces when dl np i = [] and as  <argument><dl np i>  otherwise.  In F3 the argument of a delimited parameter is plain words,
+   calls inside bodies and arguments, \newcommand macros, nested definitions and \expandafter targets have undelimited parameter
+   counts (MacroPrint.undelim).  Same conclusion; the stored parameter text (mean_of) carries the delimiters. *)
+Theorem C02_engine_simulates_F3_delims :
+  forall (D : Delims) (fuel : nat) (p : list node) (e : env) (out : list Z),
+    in_F3 p = true -> den fuel p = Ok e out -> gdef_safe fuel p = true ->
+    exists (fuel' : nat) (st' : state) (T : list tok),
+      run fuel' (init (print p)) [] = Done st' T /\
+      text_of T = words_text (rev out) /\
+      ups st' = [] /\
+      (forall id, findm (mname id) (bottom st') = option_map mean_of (alookup id (last (frames e) []))) /\
+      (forall k, (forall id, k <> mname id) -> swkey k = false -> findm k (bottom st') = findm k base_frame).
+Proof. intros D. exact engine_simulates_F3. Qed.
+
+(* non-vacuity: macros with 2 parameters write #1.#2, macros with 3 parameters write #1#2,#3;:
+   \def\A#1.#2{#2#1}\A W1 W2 .{W3 }\def\B#1#2,#3;:{#3#2#1}\B{W4 }W5 ,W6 ;:   ->   W3 W1 W2 W6 W5 W4 *)
+Definition demo_dl (np i : nat) : list tok :=
+  match np, i with
+  | 2%nat, 1%nat => [other 46]
+  | 3%nat, 2%nat => [other 44]
+  | 3%nat, 3%nat => [other 59; other 58]
+  | _, _ => []
+  end.
+Lemma demo_dl_ok : forall np i, forallb dtok_ok (demo_dl np i) = true.
+Proof. intros np i. destruct np as [|[|[|[|np]]]]; destruct i as [|[|[|[|i]]]]; reflexivity. Qed.
+Definition DemoDelims : Delims := {| dl := demo_dl; dl_ok := demo_dl_ok |}.
+Example C02_engine_example_delims :
+  let p := ([NDef false 1 2 None [NParam 2; NParam 1]; NCall 1 None [[NWord 1; NWord 2]; [NWord 3]];
+            NDef false 2 3 None [NParam 3; NParam 2; NParam 1]; NCall 2 None [[NWord 4]; [NWord 5]; [NWord 6]]])%Z in
+  @in_F3 DemoDelims p = true /\ @gdef_safe DemoDelims 100 p = true /\
+  @print DemoDelims [NCall 1 None [[NWord 1]; [NWord 3]]] = esc (mname 1) :: wprint 1 ++ other 46 :: bg :: wprint 3 ++ [eg] /\
+  (exists e, den 100 p = Ok e [4; 5; 6; 2; 1; 3]%Z) /\
+  (exists st T, run 600 (init (@print DemoDelims p)) [] = Done st T /\ text_of T = words_text [3; 1; 2; 6; 5; 4]%Z).
 Proof. vm_compute. repeat split; eexists; try eexists; repeat split. Qed.
